@@ -13,6 +13,7 @@ func init() { register("C14", checkC14) }
 
 func checkC14(r *Result) {
 	P := r.P
+	defer checkLostUpdates(r, "C14")
 	r.Explanation = "Guards and orderings of the token bridge, decided on the SSA control-flow graphs: in ClaimDeposit the mint is reachable only for an existing, un-flagged aggregate of a deposit that is not yet claimed, whose reporter power is not below the power threshold of the validator set in force at the aggregate's timestamp, and that is at least 12 hours old (constant folded); the claimed flag is stored before the mint on every path and nothing is written before the report value decoded successfully; the tip goes to the message sender and amount minus tip to the decoded recipient; the deposit query id handed to the oracle lookup is derived from the deposit id. In WithdrawTokens one amount value is taken, burned and attested, the withdrawal id is a read-modify-write counter starting at 1 and is the id the attested aggregate is built from, and that aggregate is what SetAggregate receives. The withdrawal-report blocker can return success only when the decoded direction flag is true."
 	r.NotDecided = "behaviour for adversarial encodings beyond 'decode error => reject before any state change'; int64 narrowing of decoded amounts; that the EVM side accepts the attested bytes (C15)"
 	r.Assumptions = []string{"the oracle's GetAggregateByIndex returns the stored aggregate and its timestamp", "x/bank mints and sends exactly the coins given"}
